@@ -1914,11 +1914,6 @@ func patchCode(context *funcContext) { // {{{
 				}
 				distance = d
 				count++
-				if distance < 0 {
-					// a backward jump lands on an instruction that has been patched already: its
-					// operand is a distance, no longer a label, and must not be followed
-					break
-				}
 			}
 			if distance == 0 {
 				context.Code.SetOpCode(pc, OP_NOP)
